@@ -222,9 +222,9 @@ fn run_stall(ctx: &mut Ctx, _rng: &mut Rng, index: u64) {
         match stall_once(ctx, phase, drip, to) {
             Verdict::Held => break,
             Verdict::Violation(sig, detail) => {
-                // a timing verdict on a loaded machine is re-checked before it is believed
-                if sig.starts_with("timing:") && oversleep() > Duration::from_millis(150) && attempt < 2 {
-                    ctx.count("retries_after_load_probe", 1);
+                // a timing verdict is only believed when it reproduces three times in a row
+                if sig.starts_with("timing:") && attempt < 2 {
+                    ctx.count("timing_verdicts_rechecked", 1);
                     continue;
                 }
                 ctx.violation(sig, detail);
